@@ -93,6 +93,12 @@ func applyEdits(src []byte, edits []byteEdit) []byte {
 		case "dup":
 			end := min(len(b), pos+e.N*4)
 			b = append(b[:end:end], append(append([]byte{}, b[pos:end]...), b[end:]...)...)
+		case "tl2big": // replace a byte by a huge-form size/count of about 2^Val
+			if len(b) > 0 {
+				big := []byte{255, 0, 0, 0, 0, 0, 0, 0, 0}
+				binary.LittleEndian.PutUint64(big[1:], uint64(1)<<(e.Val%64)-1+uint64(e.N))
+				b = append(b[:pos:pos], append(big, b[pos+1:]...)...)
+			}
 		case "tl2huge": // rewrite a small TL2 size byte into the huge form (non-minimal, admissible)
 			if len(b) > 0 && b[pos] < 254 {
 				huge := []byte{255, b[pos], 0, 0, 0, 0, 0, 0, 0}
